@@ -255,6 +255,9 @@ func roundCoverage(c *core.Ctx, rule string) {
 		return out
 	}
 	inCalc, inRound, inReset := assigned(calc), assigned(round), assigned(reset)
+	for f := range wholeStructStores(reset.Pkg.TypesInfo, reset.Decl.Body, recvVar(reset)) {
+		inReset[f] = true
+	}
 	for i := 0; i < st.NumFields(); i++ {
 		f := st.Field(i)
 		ts := core.TypeString(f.Type())
@@ -454,6 +457,8 @@ func C17(c *core.Ctx) {
 		c.Ob("C17-R3", "UNRESOLVED:bill.removeIncludedTaxes", token.NoPos, false, "function not found")
 	}
 	c17Invert(c)
+	c17RowLoops(c)
+	c17SignTests(c)
 	// R5: row grouping is symmetric (the group a row joins does not depend on which row came first):
 	// the matching predicate's truth table, decided under C02-R1, re-reported here
 	c.Rule("C17-R5", "row grouping predicate equals the symmetric group identity (shared with C02-R1)", 2)
@@ -567,6 +572,13 @@ func c17Invert(c *core.Ctx) {
 			}
 			return true
 		})
+		if core.RecvNamed(f.Obj) == totals {
+			for fl := range wholeStructStores(f.Pkg.TypesInfo, f.Decl.Body, recvVar(f)) {
+				if fl.Name() == name {
+					found = true
+				}
+			}
+		}
 		return found
 	}
 	read := func(f *core.FuncDecl, fld *types.Var) bool {
